@@ -95,23 +95,41 @@ func (hs *clientHandshakeStateTLS13) decompressCert(m utlsCompressedCertificateM
 		return nil, fmt.Errorf("unsupported algorithm (%d)", m.algorithm)
 	}
 
+	// A Certificate message is never larger than maxHandshakeCertificateMsg, so a larger declared
+	// length cannot be honest. Refuse it before allocating a buffer of that size.
+	if m.uncompressedLength > maxHandshakeCertificateMsg {
+		c.sendAlert(alertBadCertificate)
+		return nil, fmt.Errorf("specified len (%d) of decompressed certificate message exceeds %d bytes", m.uncompressedLength, maxHandshakeCertificateMsg)
+	}
+
 	rawMsg := make([]byte, m.uncompressedLength+4) // +4 for message type and uint24 length field
 	rawMsg[0] = typeCertificate
 	rawMsg[1] = uint8(m.uncompressedLength >> 16)
 	rawMsg[2] = uint8(m.uncompressedLength >> 8)
 	rawMsg[3] = uint8(m.uncompressedLength)
 
-	n, err := decompressed.Read(rawMsg[4:])
-	if err != nil && !errors.Is(err, io.EOF) {
-		c.sendAlert(alertBadCertificate)
-		return nil, err
-	}
-	if n < len(rawMsg)-4 {
+	// A decompressor may hand out its output in several pieces (flushed blocks, window-sized
+	// chunks, frames), so keep reading until the declared length has been reached.
+	n, err := io.ReadFull(decompressed, rawMsg[4:])
+	if err != nil {
 		// If, after decompression, the specified length does not match the actual length, the party
 		// receiving the invalid message MUST abort the connection with the "bad_certificate" alert.
 		// https://datatracker.ietf.org/doc/html/rfc8879#section-4
 		c.sendAlert(alertBadCertificate)
-		return nil, fmt.Errorf("decompressed len (%d) does not match specified len (%d)", n, m.uncompressedLength)
+		if errors.Is(err, io.EOF) || errors.Is(err, io.ErrUnexpectedEOF) {
+			return nil, fmt.Errorf("decompressed len (%d) does not match specified len (%d)", n, m.uncompressedLength)
+		}
+		return nil, err
+	}
+	// The decompressed message must also end here: anything beyond the declared length is a
+	// length mismatch as well, and the stream has to finish cleanly.
+	var probe [1]byte
+	if k, err := io.ReadFull(decompressed, probe[:]); k != 0 || !errors.Is(err, io.EOF) {
+		c.sendAlert(alertBadCertificate)
+		if k != 0 {
+			return nil, fmt.Errorf("decompressed certificate message is longer than specified len (%d)", m.uncompressedLength)
+		}
+		return nil, err
 	}
 	certMsg := new(certificateMsgTLS13)
 	if !certMsg.unmarshal(rawMsg) {
